@@ -243,6 +243,7 @@ struct Engine
         W.cur_site = site.c_str(); L.cur_site = site.c_str(); W.cur_op = idx;
         W.place.right = op.num("left") == 0;
         W.place.slack = (unsigned)(op.num("slack") % 5) * 16u;
+        W.place.res = (unsigned)(op.num("res") % 16);
         W.alloc_fault.reset(); L.ctor_fault.reset(); L.copy_fault.reset(); L.assign_fault.reset();
         Json const& f = op.at("fault");
         if (!f.is_null())
@@ -670,7 +671,7 @@ struct Engine
         size_t chal = K::bit_aligned ? 1 : alignof(typename View::value_type);
         if (chal > 8) chal = 8;
         size_t rb = min_row_bytes(w) + (size_t)(op.num("pad") % 4) * chal;
-        rb = (rb + chal - 1) / chal * chal;
+        rb = (rb + chal - 1) / chal * chal + (size_t)(op.num("padb") % 8); // padb: row pitch that is not a multiple of the channel size
         size_t n = rb * (size_t)h;
         if (n == 0) return;
         unsigned char* buf = (unsigned char*)W.allocate(7, n);
@@ -694,7 +695,7 @@ struct Engine
     {
         using ch_t = typename gil::channel_type<View>::type;
         constexpr size_t N = gil::num_channels<View>::value;
-        size_t rb = (size_t)w * sizeof(ch_t) + (size_t)(op.num("pad") % 4) * sizeof(ch_t);
+        size_t rb = (size_t)w * sizeof(ch_t) + (size_t)(op.num("pad") % 4) * sizeof(ch_t) + (size_t)(op.num("padb") % 8);
         size_t n = rb * (size_t)h;
         if (n == 0) return;
         unsigned char* pl[5] = {};
@@ -774,9 +775,9 @@ inline Json gen_plan(uint64_t seed, std::string const& profile, std::string cons
     std::vector<int> dimset = c01 ? std::vector<int>{0, 1, 2, 3, 4, 5, 6, 7, 8, 9, 15, 16, 17, 31, 32, 33}
                                   : std::vector<int>{0, 1, 2, 3, 5, 8, 16, 17};
     if (cfg.tracked) dimset = {0, 1, 2, 3, 4, 5};
-    std::vector<int> aligns;
-    for (int a : {0, 0, 1, 2, 4, 8, 16, 32, 64, 3, 12, 24})
-        if (a % cfg.chan_align == 0) aligns.push_back(a); // a row alignment that misaligns the channel type is a caller error
+    // C01/C10 quantify over *all* row alignments: values that are not a multiple of the channel size are included (the
+    // engines are built without -fsanitize=alignment; x86 tolerates the misaligned channel accesses gil then makes)
+    std::vector<int> aligns = {0, 0, 1, 2, 4, 8, 16, 32, 64, 3, 12, 24, 5, 6, 7};
     int nops = (int)r.range(c01 ? 6 : 12, c01 ? 16 : 32);
     Json ops = Json::array();
     // remember a few "interesting" shapes so that same-byte-size / same-dims cases are frequent
@@ -801,8 +802,21 @@ inline Json gen_plan(uint64_t seed, std::string const& profile, std::string cons
         o.set("arena", (int)r.below(3));
         if (r.chance(1, 4)) o.set("left", 1);
         if (r.chance(1, 3)) o.set("slack", (int)r.below(5));
+        if (r.chance(1, 4)) o.set("res", (int)r.below(16)); // block start = 16-aligned + res (allocator<unsigned char> promises no more than 1)
         o.set("val", (int)r.below(1000000));
         if (r.chance(1, 2)) o.set("pt", 1);
+    };
+    // history bias: what the previous op left in which slot, so that chains on one image (empty -> tiny, shrink -> re-align,
+    // same byte size with another shape) are frequent instead of a 1-in-4 coincidence per step
+    int last_slot = -1; bool last_empty = false;
+    auto note = [&](Json const& o)
+    {
+        std::string nm = o.str("op");
+        if (nm == "recreate" || nm == "ctor_dims" || nm == "ctor_fill")
+        {
+            last_slot = (int)(nm == "recreate" ? o.num("dst") : o.num("slot"));
+            last_empty = o.num("w") * o.num("h") == 0;
+        }
     };
     auto sweep_args = [&](Json& o)
     {
@@ -813,17 +827,28 @@ inline Json gen_plan(uint64_t seed, std::string const& profile, std::string cons
         if (r.chance(1, 3)) o.set("raw", 1);
         o.set("val", (int)r.below(1000000));
     };
+    auto chain = [&](Json& o)
+    {
+        if (last_slot < 0 || !r.chance(1, 2)) return;
+        o.set("dst", last_slot);
+        if (last_empty && r.chance(2, 3))
+        {   // an image without pixels may still hold (or believe it holds) its alignment slack: follow with something tiny
+            o.set("w", (int)r.range(1, 3)); o.set("h", (int)r.range(1, 3)); o.set("align", r.pick({0, 0, 1, 2, 4}));
+        }
+    };
     for (int i = 0; i < nops; ++i)
     {
         Json o = Json::object();
         unsigned pickop = (unsigned)r.below(100);
-        bool early = i < 3;
+        bool forced = last_empty && r.chance(1, 3);
+        if (forced) pickop = c01 ? 75 : 50; // recreate
+        bool early = i < 3 && !forced;
         if (c01)
         {
             if (early || pickop < 18) { o.set("op", r.chance(1, 2) ? "ctor_dims" : "ctor_fill"); o.set("slot", (int)r.below(4)); dims(o); common(o); }
             else if (pickop < 50) { o.set("op", "sweep"); o.set("dst", (int)r.below(4)); sweep_args(o); }
-            else if (pickop < 72) { o.set("op", "ext_sweep"); dims(o); common(o); o.set("pad", (int)r.below(4)); sweep_args(o); }
-            else if (pickop < 80) { o.set("op", "recreate"); o.set("dst", (int)r.below(4)); dims(o); common(o); if (r.chance(1, 2)) o.set("fillv", 1); }
+            else if (pickop < 72) { o.set("op", "ext_sweep"); dims(o); common(o); o.set("pad", (int)r.below(4)); if (r.chance(1, 4)) o.set("padb", (int)r.below(8)); sweep_args(o); }
+            else if (pickop < 80) { o.set("op", "recreate"); o.set("dst", (int)r.below(4)); dims(o); common(o); if (r.chance(1, 2)) o.set("fillv", 1); chain(o); }
             else if (pickop < 85) { o.set("op", "copy_ctor"); o.set("slot", (int)r.below(4)); o.set("src", (int)r.below(4)); }
             else if (pickop < 90) { o.set("op", "copy_assign"); o.set("dst", (int)r.below(4)); o.set("src", (int)r.below(4)); }
             else if (pickop < 94 && !cfg.tracked) { o.set("op", "ctor_view"); o.set("slot", (int)r.below(4)); o.set("src", (int)r.below(4)); o.set("xf", gen_xforms(r, 3)); common(o); }
@@ -847,6 +872,7 @@ inline Json gen_plan(uint64_t seed, std::string const& profile, std::string cons
                 o.set("op", "recreate"); o.set("dst", (int)r.below(4)); dims(o); common(o);
                 if (r.chance(1, 2)) o.set("fillv", 1);
                 if (r.chance(1, 3)) { o.set("walloc", 1); if (r.chance(1, 2)) o.set("samealloc", 1); }
+                chain(o);
             }
             else if (pickop < 73) { o.set("op", "swap"); o.set("dst", (int)r.below(4)); o.set("src", (int)r.below(4)); if (r.chance(1, 2)) o.set("free", 1); }
             else if (pickop < 78) { o.set("op", "destroy"); o.set("dst", (int)r.below(4)); }
@@ -864,6 +890,7 @@ inline Json gen_plan(uint64_t seed, std::string const& profile, std::string cons
             else { o.set("op", "sweep"); o.set("dst", (int)r.below(4)); sweep_args(o); o.set("fam", 1); }
         }
         if (cfg.any) o.set("type", (int)r.below(3));
+        note(o);
         ops.push(o);
     }
     plan.set("ops", ops);
